@@ -1,4 +1,4 @@
-// Package workload holds the deterministic case generators W1..W10 of DESIGN.md §4.
+// Package workload holds the deterministic case generators W1..W10 of DESIGN.md section 4.
 // Every case is a pure function of (family, position in the family, seed).
 //
 // Generators call the sink with a *Case whose Input is only valid during the call
@@ -58,7 +58,7 @@ var NumberTokens = []string{
 
 var StringTokens = []string{
 	`""`, `"a"`, `"ab c"`, `"\""`, `"\\"`, `"\/"`, `"\b"`, `"\f"`, `"\n"`, `"\r"`, `"\t"`,
-	`"é"`, `"é"`, `"😀"`, `"\ud83d"`, "\"é\"", "\"€\"", "\"\U0001F600\"", `"a\nb"`, `"xAy"`,
+	`"\u00e9"`, `"\u00E9"`, `"\ud83d\ude00"`, `"\ud83d"`, "\"\xc3\xa9\"", "\"\xe2\x82\xac\"", "\"\xf0\x9f\x98\x80\"", `"a\nb"`, `"x\u0041y"`,
 	"\"\xff\"",
 }
 
@@ -66,11 +66,11 @@ var ArrayTokens = []string{"[]", "[ ]", "[1]", "[1,2]", "[ 1 , 2 ]", "[[]]", `["
 
 var ObjectTokens = []string{"{}", "{ }", `{"a":1}`, `{"a":1,"b":2}`, `{ "a" : 1 }`, `{"a":{}}`, `{"a":[]}`, `{"\n":1}`, `{"a":"b"}`}
 
-var ReducedTokens = []string{"null", "true", "-12", "0.5", "1e+5", `"a\nb"`, `"é😀"`, "[1,2]", `{"a":1}`, "[]", "{}"}
+var ReducedTokens = []string{"null", "true", "-12", "0.5", "1e+5", `"a\nb"`, `"\u00e9\ud83d\ude00"`, "[1,2]", `{"a":1}`, "[]", "{}"}
 
 // LongSeeds are hand-written documents mixing many constructs.
 var LongSeeds = []string{
-	`{"a":[1,2.5e-3,"x\ny",null,true,false,{"b":{}}],"c":"😀"}`,
+	`{"a":[1,2.5e-3,"x\ny",null,true,false,{"b":{}}],"c":"\ud83d\ude00"}`,
 	` [ { "k" : [ ] , "l" : { } } , -0.0 , "\\\"" ] `,
 	`[[[1],[2,[3]]],{"a":{"b":{"c":[null]}}}]`,
 	`{"":"","\u0000":0,"a\"b":"c\\d"}`,
@@ -111,7 +111,7 @@ func ReducedSeeds() []string {
 			out = append(out, c.Pre+t+c.Suf)
 		}
 	}
-	for _, s := range []string{`"a"`, `"\n"`, `"é"`, `""`} {
+	for _, s := range []string{`"a"`, `"\n"`, `"\u00e9"`, `""`} {
 		out = append(out, "{"+s+":1}", `{"a":1,`+s+":2}")
 	}
 	out = append(out, LongSeeds...)
